@@ -86,7 +86,7 @@ def gen_cases(ctx):
             d.update(hash=hn, proofs=2, shape="corpus")
             d.setdefault("atomic", False)
             cases.append(d)
-    n_toy, n_sha = (36, 14) if quick else (500, 200)
+    n_toy, n_sha = (28, 10) if quick else (1000, 300)
     for i in range(n_toy + n_sha):
         hn = "toy" if i < n_toy else "sha"
         c = tg.rand_case(rng, hn, nkeys=rng.choice([1, 2, 3, 4, 5, 6, 8]), nbatches=rng.choice([1, 2, 3, 4]),
@@ -249,7 +249,14 @@ def query_line(d):
 
 
 def run(ctx):
+    import time
+    phases, t0 = {}, [time.time()]
+
+    def mark(name):
+        phases[name] = round(time.time() - t0[0], 1)
+        t0[0] = time.time()
     pr = ctx.prove()
+    mark("prove")
     ctx.cov["trusted_base"] = ["Coq 8.16.1 kernel", "Coq extraction (ExtrOcamlBasic) + OCaml driver harness/engines/trie/driver*.ml",
                                "Go toolchain, engine harness/engines/trie", "generator lib/trie_gen.py + checks/C11.py"]
     ctx.assumptions = ["verifier inputs are length-checked: key and value 32 bytes, audit nodes 32 bytes or DefaultLeaf, height <= 256",
@@ -259,6 +266,7 @@ def run(ctx):
     if rc != 0:
         raise RuntimeError("trie engine build failed:\n" + log[-3000:])
     exe, derr = tg.build_driver(ctx)
+    mark("build engine+driver")
     rng = ctx.rng
     cases = gen_cases(ctx)
     forged = []
@@ -278,6 +286,7 @@ def run(ctx):
         forged = [f for f in forged if f[0] < crash]
         cases = cases[:crash]
     obs = [json.loads(l) for l in lines]
+    mark("ops engine")
     if len(obs) != len(cases):
         raise RuntimeError("engine returned %d observations for %d cases" % (len(obs), len(cases)))
     corr = None
@@ -379,8 +388,9 @@ def run(ctx):
                 corr = corr or ("model proof (vm_compute) differs from the real proof or is rejected by the model verifier on %d of %d sampled proofs"
                                 % (len(idx), len(ksample)), [{"case": {k: cases[e[0]][k] for k in ("hash", "batches")}, "key": e[1]["key"], "at": e[1]["at"]}])
             ctx.cov["kernel_evaluated_proofs"] = len(ksample)
+    mark("model proofs (driver + kernel sample)")
     # ---- corrupted proofs through the real verifiers and the model verifiers
-    budget = 2500 if ctx.tier == "quick" else 60000
+    budget = 1800 if ctx.tier == "quick" else 100000
     queries = []    # (label, query, claim, truth-map)
     rng.shuffle(honest)
     for n, (ci, p) in enumerate(honest):
@@ -434,6 +444,7 @@ def run(ctx):
                 corr = corr or ("real verifier and model verifier disagree on %d of %d queries" % (len(bad), len(tq)),
                                 [{"variant": b[0][0], "query": b[0][1], "impl": b[1], "model": b[2]} for b in bad[:3]])
         ctx.cov["model_verdicts_compared"] = len(tq)
+    mark("verifier queries (engine + driver)")
     # ---- statedb level: GetAccountAndProof / GetVarAndProof through the real verifiers
     rc, log, sbin = ctx.go_test_binary("state/statedb", [SDB_ENGINE], "statedb.test", use_overlay=False)
     if rc != 0:
@@ -442,7 +453,9 @@ def run(ctx):
     sobs = [json.loads(l) for l in tg.run_engine(ctx, sbin, "TestVerifStateDBProofs", scases, "c11s")]
     sf, nsdb = statedb_predicates(scases, sobs)
     fails += sf
+    mark("statedb engine")
     # ---- evidence
+    ctx.cov["phase_seconds"] = phases
     ctx.cov["statedb_proofs_verified"] = nsdb
     ctx.cov["evaluations"] = nproofs + len(queries) + nsdb
     ctx.cov["traces_validated_against_impl"] = ctx.cov.get("model_proofs_compared", 0) + ctx.cov.get("model_verdicts_compared", 0)
